@@ -25,7 +25,12 @@ def sh(cmd, cwd=None, timeout=3600, env=None):
 
 def sync_verif():
     os.makedirs(VERIF, exist_ok=True)
-    sh(f"rsync -a --delete --exclude target --exclude work --exclude replays --exclude evidence --exclude .git {SRC}/ {VERIF}/")
+    # the lab takes the COMMITTED state of the verification tree (git archive HEAD), so that edits in
+    # progress never leak into a running sensitivity campaign
+    snap = VERIF + ".snap"
+    sh(f"rm -rf {snap} && mkdir -p {snap} && git -C {SRC} archive HEAD | tar -x -C {snap}")
+    sh(f"rsync -a --delete --exclude target --exclude work --exclude replays --exclude evidence --exclude .git {snap}/ {VERIF}/")
+    sh(f"rm -rf {snap}")
     ct = open(VERIF + "/harness/Cargo.toml").read().replace('path = "/repo"', f'path = "{REPO}"')
     open(VERIF + "/harness/Cargo.toml", "w").write(ct)
     if os.path.isdir(VERIF + "/fuzz"):
